@@ -459,7 +459,7 @@ run_fuzzmaps = fuzzrun.make_runner("c17", "VERIF_FUZZMAPS", MAPS_CORPUS, max_len
 
 def subs(tier):
     return [Sub("fuzzmaps", st.just({}), run_fuzzmaps, quick=1, thorough=1, needs=("fuzzmaps",),
-                enum=lambda t: fuzzrun.campaigns(t, 12000, 600000), max_wall={"quick": 400, "thorough": 3000}),
+                enum=lambda t: fuzzrun.campaigns(t, 12000, 250000), max_wall={"quick": 400, "thorough": 3000}),
             Sub("apisan", st.just({}), run_apisan, quick=1, thorough=1, needs=("shimsan",), enum=apisan_enum,
                 max_wall={"quick": 500, "thorough": 3200}),
             Sub("fuzz", st.just({}), run_fuzz, quick=1, thorough=1, needs=("fuzz",), enum=fuzz_enum,
